@@ -14,6 +14,8 @@
 //!     samples[] table is assembled through the public serde interface, the real `predict` /
 //!     `predict_oob` are run and observed exactly like a fitted forest.
 //!
+//! `replay-file <in.ndjson> <out.ndjson>`  re-executes the events of a replay artefact.
+//!
 //! No property logic lives here.  Values are projected to integers (label values: exact;
 //! regression values: fixed point round(v*2^16), with a flag where the value is not a usable
 //! number); a digest is a hash of the serde dump and of the bit patterns of the predictions.
@@ -103,7 +105,11 @@ fn mat(rows: &[Vec<f64>]) -> DenseMatrix<f64> {
 
 struct Observed {
     obs: Value,
+    /// everything observable, including the recorded parameters
     digest: String,
+    /// member trees, membership table and predictions only (no parameters, hence no seed):
+    /// lets the driver measure whether different seeds gave different forests
+    fdigest: String,
 }
 
 /// `dump` is the serde dump of the forest; `tree_pred(tree_json, x_all)` asks one member tree.
@@ -184,6 +190,8 @@ fn observe(
         oob_status.as_bytes(),
         &oob_bits,
     ]);
+    let body = format!("{}|{}", dump.get("trees").unwrap_or(&Value::Null), dump.get("samples").unwrap_or(&Value::Null));
+    let fdigest = digest_of(&[body.as_bytes(), &tp_bits, &pred_bits, oob_status.as_bytes(), &oob_bits]);
     let obs = json!({
         "kind": kind, "nTrees": n_trees_param, "trees": trees.len(),
         "nTrain": n_train, "nAll": n_all, "y": yq,
@@ -192,7 +200,7 @@ fn observe(
         "predOk": pred_ok, "pred": predq,
         "oobStatus": oob_status, "oobFin": oob_fin, "oob": oobq,
     });
-    Observed { obs, digest }
+    Observed { obs, digest, fdigest }
 }
 
 fn res_vec(r: Result<Result<Vec<f64>, smartcore::error::Failed>, String>) -> Result<Vec<f64>, String> {
@@ -298,7 +306,7 @@ fn crit_of(c: usize) -> SplitCriterion {
 }
 
 /// status, digest, observation of one real fit
-fn fit_once(d: &Data, s: &Setting, seed: u64) -> (&'static str, String, Value) {
+fn fit_once(d: &Data, s: &Setting, seed: u64) -> (&'static str, String, String, Value) {
     let xm = mat(&d.x);
     let mut xall = d.x.clone();
     xall.extend(d.xq.iter().cloned());
@@ -316,10 +324,10 @@ fn fit_once(d: &Data, s: &Setting, seed: u64) -> (&'static str, String, Value) {
         match guard(|| RandomForestClassifier::fit(&xm, &d.y, p)) {
             Ok(Ok(f)) => {
                 let o = observe_cls(&f, s.n_trees, s.keep, &d.x, &xall, &d.y);
-                ("ok", o.digest, o.obs)
+                ("ok", o.digest, o.fdigest, o.obs)
             }
-            Ok(Err(e)) => ("err", format!("err:{}", e), json!({})),
-            Err(m) => ("panic", format!("panic:{}", m), json!({})),
+            Ok(Err(e)) => ("err", format!("err:{}", e), String::from("err"), json!({})),
+            Err(m) => ("panic", format!("panic:{}", m), String::from("panic"), json!({})),
         }
     } else {
         let p = RandomForestRegressorParameters {
@@ -334,10 +342,10 @@ fn fit_once(d: &Data, s: &Setting, seed: u64) -> (&'static str, String, Value) {
         match guard(|| RandomForestRegressor::fit(&xm, &d.y, p)) {
             Ok(Ok(f)) => {
                 let o = observe_reg(&f, s.n_trees, s.keep, &d.x, &xall, &d.y);
-                ("ok", o.digest, o.obs)
+                ("ok", o.digest, o.fdigest, o.obs)
             }
-            Ok(Err(e)) => ("err", format!("err:{}", e), json!({})),
-            Err(m) => ("panic", format!("panic:{}", m), json!({})),
+            Ok(Err(e)) => ("err", format!("err:{}", e), String::from("err"), json!({})),
+            Err(m) => ("panic", format!("panic:{}", m), String::from("panic"), json!({})),
         }
     }
 }
@@ -370,12 +378,13 @@ fn ints(rows: &[Vec<f64>]) -> Vec<Vec<i64>> {
 fn emit_fit(out: &mut Out, run: i64, full: bool, d: &Data, s: &Setting, seed: u64) {
     let base = base_key(d, s);
     let key = format!("{}#{}", base, seed);
-    let (status, digest, obs) = fit_once(d, s, seed);
+    let (status, digest, fdigest, obs) = fit_once(d, s, seed);
     if full {
         let p = d.x[0].len();
         out.emit(json!({
-            "run": run, "ev": "ForestFit", "key": key, "base": base, "digest": digest, "status": status,
-            "in": {"kind": s.kind, "n": d.x.len(), "p": p, "X": ints(&d.x),
+            "run": run, "ev": "ForestFit", "key": key, "base": base, "digest": digest, "fdigest": fdigest, "status": status,
+            "in": {"kind": s.kind, "n": d.x.len(), "p": p, "X": ints(&d.x), "Xq": ints(&d.xq),
+                   "y": proj_vec(s.kind, &d.y).1,
                    "nTrees": s.n_trees, "m": s.m.map(|v| v as i64).unwrap_or(-1),
                    "maxDepth": s.max_depth.map(|v| v as i64).unwrap_or(-1),
                    "msl": s.msl, "mss": s.mss, "crit": s.crit, "keep": s.keep,
@@ -384,7 +393,7 @@ fn emit_fit(out: &mut Out, run: i64, full: bool, d: &Data, s: &Setting, seed: u6
         }));
     } else {
         out.emit(json!({"run": run, "ev": "ForestRefit", "key": key, "base": base,
-                        "digest": digest, "status": status}));
+                        "digest": digest, "fdigest": fdigest, "status": status}));
     }
 }
 
@@ -528,7 +537,7 @@ fn gen_fits(path: &str) {
     let mut out = Out::create(path);
     let mut r = rng(6);
     let th = thorough();
-    let cases = if th { 1500 } else { 230 };
+    let cases = if th { 10000 } else { 2000 };
     let mut run = 0i64;
     let mut early: Vec<(Data, Setting, u64)> = Vec::new();
     for c in 0..cases {
@@ -613,7 +622,8 @@ fn replay_spec(inp: &str, outp: &str) {
         let x: Vec<Vec<f64>> = (0..n).map(|i| vec![i as f64]).collect();
         let samples: Value = if keep { c["mask"].clone() } else { Value::Null };
         let expect = json!({"pred": c["pred"], "oobStatus": c["oobStatus"],
-                            "oobFin": c["oobFin"], "oob": c["oob"]});
+                            "oobFin": c["oobFin"], "oob": c["oob"],
+                            "y": c["y"], "treePred": c["treePred"], "mask": c["mask"]});
         let tp: Vec<Vec<i64>> = c["treePred"].as_array().map(|a| a.iter().map(arr_i64).collect()).unwrap_or_default();
         let (status, obs): (&str, Value) = if kind == "cls" {
             let y: Vec<f64> = yv.iter().map(|&v| v as f64).collect();
@@ -672,6 +682,78 @@ fn replay_spec(inp: &str, outp: &str) {
     println!("events={} runs={}", n, run);
 }
 
+/// `replay-file <in> <out>`: re-execute the cases stored in a replay artefact against the
+/// current library.  A ForestFit event is re-fitted twice from its recorded inputs (fit +
+/// refit); a ForestObs event is re-assembled from its recorded member-tree predictions.
+fn replay_file(inp: &str, outp: &str) {
+    let events = read_ndjson(inp);
+    let mut out = Out::create(outp);
+    let mut asm: Vec<Value> = Vec::new();
+    let mut run = 0i64;
+    for e in events.iter() {
+        match e["ev"].as_str().unwrap_or("") {
+            "ForestFit" => {
+                run += 1;
+                let i = &e["in"];
+                let kind: &'static str = if i["kind"] == "cls" { "cls" } else { "reg" };
+                let rows = |v: &Value| -> Vec<Vec<f64>> {
+                    v.as_array()
+                        .map(|a| a.iter().map(|r| arr_i64(r).iter().map(|&x| x as f64).collect()).collect())
+                        .unwrap_or_default()
+                };
+                let y: Vec<f64> = arr_i64(&i["y"])
+                    .iter()
+                    .map(|&v| if kind == "cls" { v as f64 } else { v as f64 / FX })
+                    .collect();
+                let d = Data { id: run as usize, x: rows(&i["X"]), xq: rows(&i["Xq"]), y };
+                let opt = |v: &Value| -> Option<i64> { v.as_i64().filter(|&x| x >= 0) };
+                let s = Setting {
+                    kind,
+                    n_trees: i["nTrees"].as_u64().unwrap_or(1) as usize,
+                    m: opt(&i["m"]).map(|v| v as usize),
+                    max_depth: opt(&i["maxDepth"]).map(|v| v as u16),
+                    msl: i["msl"].as_u64().unwrap_or(1) as usize,
+                    mss: i["mss"].as_u64().unwrap_or(2) as usize,
+                    crit: i["crit"].as_u64().unwrap_or(0) as usize,
+                    keep: i["keep"].as_bool().unwrap_or(false),
+                };
+                let seed: u64 = i["seed"].as_str().and_then(|t| t.parse().ok()).unwrap_or(0);
+                emit_fit(&mut out, run, true, &d, &s, seed);
+                emit_fit(&mut out, run, false, &d, &s, seed);
+            }
+            "ForestObs" => {
+                let mut c = e["expect"].clone();
+                for k in ["kind", "nTrain", "nTrees", "keep"].iter() {
+                    c[*k] = e["obs"][*k].clone();
+                }
+                asm.push(c);
+            }
+            _ => {}
+        }
+    }
+    let n1 = out.finish();
+    if !asm.is_empty() {
+        let tmp_in = format!("{}.asm-in", outp);
+        let tmp_out = format!("{}.asm-out", outp);
+        let mut o = Out::create(&tmp_in);
+        for c in asm {
+            o.emit(c);
+        }
+        o.finish();
+        replay_spec(&tmp_in, &tmp_out);
+        let mut all = read_ndjson(outp);
+        all.extend(read_ndjson(&tmp_out));
+        let mut o = Out::create(outp);
+        for v in all {
+            o.emit(v);
+        }
+        o.finish();
+        let _ = std::fs::remove_file(&tmp_in);
+        let _ = std::fs::remove_file(&tmp_out);
+    }
+    println!("events={} runs={}", n1, run);
+}
+
 fn main() {
     let args: Vec<String> = std::env::args().skip(1).collect();
     let args = &args[..];
@@ -679,6 +761,7 @@ fn main() {
     match arg(args, 0) {
         "gen-fits" => gen_fits(arg(args, 1)),
         "replay-spec" => replay_spec(arg(args, 1), arg(args, 2)),
+        "replay-file" => replay_file(arg(args, 1), arg(args, 2)),
         m => {
             eprintln!("unknown c06 mode {}", m);
             std::process::exit(2);
